@@ -706,3 +706,62 @@ Proof.
         unfold valid_GB, nonempty. rewrite D, P1, P2, orb_true_r. exact S.
     + pose proof (proj1 S) as L. cbn [List.length] in L. injection L as L. explode c L. apply gb_special_iff. exact S.
 Qed.
+
+(* ======================= MX ======================= *)
+Lemma mx_letters_sound n : forall s rest, mx_letters n s = Some rest -> exists p, s = p ++ rest /\ rfc_letters n p.
+Proof.
+  induction n as [|n IH]; intros s rest H; cbn [mx_letters] in H.
+  - injection H as <-. exists []. split; [reflexivity | constructor].
+  - destruct s as [|b r]; [discriminate|].
+    destruct (is_upper b || beq b 38) eqn:A.
+    + destruct (IH _ _ H) as (p & -> & R). exists (b :: p). split; [reflexivity|].
+      apply rfc_ascii; [|exact R]. apply orb_prop in A. destruct A as [A|A]; [left; exact A | right].
+      apply beq_eq in A; [exact A | lia].
+    + destruct (beq b 195) eqn:B; [|discriminate]. destruct r as [|b2 r2]; [discriminate|].
+      destruct (beq b2 145) eqn:B2; [|discriminate].
+      destruct (IH _ _ H) as (p & -> & R). exists (b :: b2 :: p).
+      apply beq_eq in B; [|lia]. apply beq_eq in B2; [|lia]. subst b b2. split; [reflexivity|].
+      apply rfc_ntilde. exact R.
+Qed.
+Lemma mx_letters_complete n p rest : rfc_letters n p -> mx_letters n (p ++ rest) = Some rest.
+Proof.
+  induction 1 as [|n b r A R IH|n r R IH]; cbn [mx_letters app].
+  - reflexivity.
+  - assert (E : is_upper b || beq b 38 = true).
+    { destruct A as [A| ->]; [rewrite A; reflexivity | reflexivity]. }
+    rewrite E. exact IH.
+  - change (is_upper (byte_of_Z 195) || beq (byte_of_Z 195) 38) with false.
+    change (beq (byte_of_Z 195) 195) with true. change (beq (byte_of_Z 145) 145) with true. cbn iota. exact IH.
+Qed.
+
+Lemma mx_tail_iff r :
+  match_classes (rep 6 is_digit ++ rep 3 is_alnum) r = true <->
+  List.length r = 9%nat /\ digits_between r 0 6 /\ forall i, (6 <= i < 9)%nat -> is_alnum (nthb i r) = true.
+Proof.
+  split.
+  - intro M. pose proof (match_classes_length _ _ M) as L. cbn [List.length rep repeat app] in L.
+    split; [exact L|]. explode r L. cbn [rep repeat app match_classes] in M. split_all M.
+    split; [solve_between 6%nat|]. intros i Hi. between_cases i 9%nat.
+  - intros (L & Dg & Al). explode r L. pose_between Dg 0%nat 6%nat.
+    pose proof (Al 6%nat ltac:(lia)) as Al6. pose proof (Al 7%nat ltac:(lia)) as Al7. pose proof (Al 8%nat ltac:(lia)) as Al8.
+    cbn [nthb nth] in Al6, Al7, Al8. cbn [rep repeat app match_classes]. rewrite Al6, Al7, Al8. cbn [andb]. solve_digits.
+Qed.
+
+Lemma mx_shape_iff n c :
+  mx_shape n c = true <->
+  exists p r, c = p ++ r /\ rfc_letters n p /\ List.length r = 9%nat /\ digits_between r 0 6 /\
+              forall i, (6 <= i < 9)%nat -> is_alnum (nthb i r) = true.
+Proof.
+  unfold mx_shape. split.
+  - destruct (mx_letters n c) as [rest|] eqn:E; [|discriminate]. intro M.
+    destruct (mx_letters_sound _ _ _ E) as (p & -> & R). exists p, rest. split; [reflexivity|]. split; [exact R|].
+    apply mx_tail_iff. exact M.
+  - intros (p & r & -> & R & T). rewrite (mx_letters_complete _ _ r R). apply mx_tail_iff. exact T.
+Qed.
+
+Theorem valid_MX_iff_spec c : valid_MX c = true <-> c = [] \/ Spec_MX c.
+Proof.
+  destruct c as [|x c]; [split; auto|]. unfold valid_MX, nonempty, Spec_MX. rewrite orb_true_iff, !mx_shape_iff. split.
+  - intros [(p & r & E & R & T)|(p & r & E & R & T)]; right; exists p, r; tauto.
+  - intros [?|(p & r & E & [R|R] & T)]; [discriminate | left | right]; exists p, r; tauto.
+Qed.
